@@ -61,7 +61,8 @@ def gen_cases(tier, rng):
                         exp = var[present]["expected"]
                     cases.append({"id": "fault/%d/r%d/u%d/%d" % (seed, r, unit, vi),
                                   "hex": assemble(with_ts(full["settings"], ts), evs, full["bz"], fails),
-                                  "meta": {"stream": "valve-faults", "expected": exp, "vec": vec, "r": r, "unit": unit, "attempts": made}})
+                                  "meta": {"stream": "valve-faults", "expected": exp, "vec": vec, "r": r, "unit": unit, "attempts": made,
+                                           "events": [None if e is None else e.hex() for e in evs], "tags": {"e": full["tags"]["e"]}}})
     return cases
 
 
@@ -72,7 +73,7 @@ def oracle(case, impl, side):
         return ("panic", "panicked: " + side[:200])
     if res != m["expected"]:
         return ("retry-result", "fault vector %s at unit %d with r=%d: got %s expected %s" % (m["vec"], m["unit"], m["r"], res[:200], m["expected"][:200]))
-    n = initial_sends(trace, KINDS[m["unit"]])
+    n = count_attempts(m["tags"], [None if e is None else bytes.fromhex(e) for e in m["events"]], trace, KINDS[m["unit"]])
     if n != m["attempts"] or n > m["r"] + 1:
         return ("retry-attempts", "fault vector %s at unit %d with r=%d: %d attempts, expected %d" % (m["vec"], m["unit"], m["r"], n, m["attempts"]))
     return None
